@@ -1276,6 +1276,9 @@ def _raw(n):
   return {"t": "raw", "len": n, "pat": 2}
 
 
+NOPAY = {"t": "raw", "len": 0, "pat": 0, "fixed": True}     # the message kind admits no payload
+
+
 def catalog(n=6):
   """[(name, spec)]: one minimal instance per protocol / message kind.  n is the payload length used
   where a free payload exists."""
@@ -1285,10 +1288,10 @@ def catalog(n=6):
   lldp_min = [{"k": "chassis", "sub": 4, "id": M1}, {"k": "port", "sub": 2, "id": b"1"}, {"k": "ttl", "v": 120}]
   out = [
     ("eth-raw", [_eth(type=0x88b5), P]),
-    ("arp", [_eth(), {"t": "arp", "op": 1, "sha": M1, "spa": A1, "tha": b"\0" * 6, "tpa": A2}, _raw(0)]),
-    ("rarp", [_eth(), {"t": "arp", "rarp": True, "op": 3, "sha": M1, "spa": A1, "tha": M1, "tpa": A2}, _raw(0)]),
+    ("arp", [_eth(), {"t": "arp", "op": 1, "sha": M1, "spa": A1, "tha": b"\0" * 6, "tpa": A2}, NOPAY]),
+    ("rarp", [_eth(), {"t": "arp", "rarp": True, "op": 3, "sha": M1, "spa": A1, "tha": M1, "tpa": A2}, NOPAY]),
     ("vlan-arp", [_eth(), {"t": "vlan", "pcp": 3, "cfi": 0, "id": 100},
-                  {"t": "arp", "op": 2, "sha": M1, "spa": A1, "tha": M2, "tpa": A2}, _raw(0)]),
+                  {"t": "arp", "op": 2, "sha": M1, "spa": A1, "tha": M2, "tpa": A2}, NOPAY]),
     ("vlan-cfi-raw", [_eth(), {"t": "vlan", "pcp": 0, "cfi": 1, "id": 1, "type": 0x88b5}, P]),
     ("qinq-ipv4-udp", [_eth(), {"t": "vlan", "pcp": 1, "id": 10}, {"t": "vlan", "pcp": 2, "id": 20}, _ip4(), {"t": "udp"}, P]),
     ("llc-raw", [_eth(), {"t": "llc", "dsap": 0x42, "ssap": 0x42, "ctrl": 3}, P]),
@@ -1331,7 +1334,7 @@ def catalog(n=6):
         {"af": 2, "tag": 1, "ip": bytes([10, 1, 0, 0]), "mask": bytes([255, 255, 0, 0]), "nh": A1, "metric": 3}]}]),
     ("ipv4-udp-vxlan", [_eth(), _ip4(), {"t": "udp"}, {"t": "vxlan", "vni": 5000}, _eth(type=0x88b5), P]),
     ("ipv6-raw", [_eth(), _ip6(nh=253), P]),
-    ("ipv6-nonext", [_eth(), _ip6(nh=59), _raw(0)]),
+    ("ipv6-nonext", [_eth(), _ip6(nh=59), NOPAY]),
     ("ipv6-udp", [_eth(), _ip6(), {"t": "udp"}, P]),
     ("ipv6-tcp", [_eth(), _ip6(), {"t": "tcp", "opts": [{"k": "mss", "v": 1440}]}, P]),
     ("ipv6-hbh-udp", [_eth(), _ip6(ext=[{"k": 0, "body": b"\x01\x04\0\0\0\0"}]), {"t": "udp"}, P]),
@@ -1357,8 +1360,8 @@ def catalog(n=6):
     ("mpls-raw", [_eth(), {"t": "mpls", "label": 16, "tc": 1, "ttl": 64}, P]),
     ("mpls2-raw", [_eth(), {"t": "mpls", "label": 100, "ttl": 64}, {"t": "mpls", "mc": False, "label": 0xfffff, "tc": 7, "ttl": 255}, P]),
     ("mplsmc-raw", [_eth(), {"t": "mpls", "mc": True, "label": 17, "ttl": 1}, P]),
-    ("eapol-start", [_eth(dst=bytes.fromhex("0180c2000003")), {"t": "eapol", "ver": 1, "type": 1}, _raw(0)]),
-    ("eapol-eap-success", [_eth(dst=bytes.fromhex("0180c2000003")), {"t": "eapol", "ver": 2, "type": 0}, {"t": "eap", "code": 3, "id": 1}, _raw(0)]),
+    ("eapol-start", [_eth(dst=bytes.fromhex("0180c2000003")), {"t": "eapol", "ver": 1, "type": 1}, NOPAY]),
+    ("eapol-eap-success", [_eth(dst=bytes.fromhex("0180c2000003")), {"t": "eapol", "ver": 2, "type": 0}, {"t": "eap", "code": 3, "id": 1}, NOPAY]),
     ("eapol-eap-request", [_eth(dst=bytes.fromhex("0180c2000003")), {"t": "eapol", "ver": 1, "type": 0}, {"t": "eap", "code": 1, "id": 2, "type": 1}, P]),
     ("eapol-key", [_eth(dst=bytes.fromhex("0180c2000003")), {"t": "eapol", "ver": 1, "type": 3}, P]),
   ]
